@@ -139,7 +139,7 @@ theorem run1D_between_aux {xs ys : List Rat} {xdim fdim pref mul v : Rat} {o : O
   obtain ⟨hN, hx, hst, hp⟩ := mk_ok hmk
   obtain ⟨j, o', hl, hj, hb0, hb1⟩ :=
     locate_fresh_bracket ((o.setPrefactor pref).multiply mul) (show 2 ≤ o.N by omega) hx hst h0 h1
-  have hi := interpolate_eq hl
+  have hi := interpolate_eq hl (valueAt_eq_cubicAt (o := (o.setPrefactor pref).multiply mul) hx hj hb0 hb1)
   refine ⟨pref * mul * cubic o.N o.x o.y j v, j, ?_, hj, hb0, hb1, ?_⟩
   · unfold run1D
     rw [hmk]
